@@ -61,16 +61,15 @@ func writeZip(es []zspec) []byte {
 
 // entry layout read back with archive/zip: names in order and the footprint (bytes from the start of the
 // name to the start of the next local header / central directory) of each entry
-func readBack(a []byte) (names []string, foot []int, ok bool) {
+func readBack(a []byte) (names []string, foot []int, starts []int, ok bool) {
 	r, err := zip.NewReader(bytes.NewReader(a), int64(len(a)))
 	if err != nil {
-		return nil, nil, false
+		return nil, nil, nil, false
 	}
-	var starts []int
 	for _, f := range r.File {
 		off, err := f.DataOffset()
 		if err != nil {
-			return nil, nil, false
+			return nil, nil, nil, false
 		}
 		// local header starts 30 + len(name) + len(extra) before the data
 		var lh [30]byte
@@ -88,7 +87,7 @@ func readBack(a []byte) (names []string, foot []int, ok bool) {
 			}
 		}
 		if hs < 0 {
-			return nil, nil, false
+			return nil, nil, nil, false
 		}
 		names = append(names, f.Name)
 		starts = append(starts, hs)
@@ -105,7 +104,24 @@ func readBack(a []byte) (names []string, foot []int, ok bool) {
 		}
 		foot = append(foot, next-(starts[i]+30))
 	}
-	return names, foot, true
+	return names, foot, starts, true
+}
+
+// the names the zip detectors look for (internal/magic/zip.go, ms_office.go)
+var c19Markers = []string{"word/", "xl/", "ppt/", "META-INF/MANIFEST.MF", "AndroidManifest.xml", "META-INF/com/android/build/gradle/app-metadata.properties", "classes.dex", "resources.arsc", "res/drawable"}
+
+// nameContinued: some entry name is a proper prefix of a marker and the bytes that follow the name in the archive
+// (extra field, body) complete it, so that the raw bytes at the name offset spell a marker no entry name carries
+func nameContinued(a []byte, names []string, starts []int) bool {
+	for i, hs := range starts {
+		nm := names[i]
+		for _, mk := range c19Markers {
+			if len(nm) > 0 && len(nm) < len(mk) && strings.HasPrefix(mk, nm) && hs+30+len(mk) <= len(a) && string(a[hs+30:hs+30+len(mk)]) == mk {
+				return true
+			}
+		}
+	}
+	return false
 }
 
 func bodiesHaveSignature(a []byte, names []string) bool {
@@ -118,7 +134,7 @@ func (c *runCtx) c19Case(kind string, es []zspec) {
 	if !c.mine(a) {
 		return
 	}
-	names, foot, ok := readBack(a)
+	names, foot, starts, ok := readBack(a)
 	if !ok || len(names) == 0 {
 		c.stats.Kinds["unreadable"]++
 		return
@@ -150,7 +166,11 @@ func (c *runCtx) c19Case(kind string, es []zspec) {
 	if i := strings.IndexByte(chain, ';'); i > 0 {
 		c.stats.Results[chain[:i]]++
 	}
-	c.emit("c19", strings.Join(hn, ","), strings.Join(fs, ","), first, chain, kind, hx(a[:min(len(a), 64)]))
+	k5 := "0"
+	if nameContinued(a, names, starts) {
+		k5 = "1"
+	}
+	c.emit("c19", strings.Join(hn, ","), strings.Join(fs, ","), first, chain, kind, hx(a[:min(len(a), 64)]), k5)
 	if c.stats.Evaluations%301 == 1 {
 		c.stats.sample(fmt.Sprintf("c19 kind=%s names=%q footprints=%v -> %s", kind, names, foot, chain))
 	}
